@@ -571,3 +571,32 @@ class _SubstText(ast.NodeTransformer):
                 return clone(self.mapping[k])
         self.generic_visit(node)
         return node
+
+
+def conds_before_sym(path, target):
+    """like conds_before, with every condition rewritten so that a local assigned earlier on the path (a flag such as
+    `acceptable = datatype.is_valid(value)`) is replaced by the expression it holds"""
+    sym = {}
+    conds = []
+    for e in path.events:
+        if e.kind in ("stmt", "return", "raise") and _contains(e.node, target):
+            return conds
+        if e.kind == "cond":
+            if _contains(e.node, target):
+                return conds
+            t = e.node
+            if sym and {x.id for x in ast.walk(t) if isinstance(x, ast.Name)} & set(sym):
+                t = _SubstText(sym).visit(clone(t))
+            conds.append((t, e.pol))
+        elif e.kind == "stmt":
+            n = e.node
+            if isinstance(n, ast.Assign) and len(n.targets) == 1 and isinstance(n.targets[0], ast.Name):
+                sym[n.targets[0].id] = _SubstText(sym).visit(clone(n.value))
+            elif isinstance(n, ast.Assign):
+                for t_ in n.targets:
+                    for x in ast.walk(t_):
+                        if isinstance(x, ast.Name):
+                            sym.pop(x.id, None)
+            elif isinstance(n, ast.AugAssign) and isinstance(n.target, ast.Name):
+                sym.pop(n.target.id, None)
+    return None
